@@ -30,7 +30,7 @@ import (
 
 const (
 	c34Slots   = 3  // buckets the population falls into
-	c34PerSlot = 24 // candidate nodes per bucket (> bucketSize, so buckets overflow)
+	c34PerSlot = 48 // candidate nodes per bucket (> bucketSize + the replacement list, so both overflow)
 )
 
 // log-distances of the three buckets of the population (top buckets: what random ids hit).
@@ -160,6 +160,13 @@ func c34GenWith(withStuff bool) func(t *rapid.T) c34Case {
 	chunk := rapid.SliceOfN(c34GenOp(withStuff), 0, 12)
 	return func(t *rapid.T) c34Case {
 		c := c34Case{Self: rapid.IntRange(0, 3).Draw(t, "self")}
+		// in a third of the cases the hot bucket and its replacement list are filled first (32 nodes
+		// and more), so that the rest of the list works on a table with nothing left to spare
+		if rapid.IntRange(0, 2).Draw(t, "fillq") == 0 {
+			for i := rapid.IntRange(30, 40).Draw(t, "fill"); i > 0; i-- {
+				c.Ops = append(c.Ops, c34Op{Op: "add", N: []c34Node{{Kind: "new", B: 0}}})
+			}
+		}
 		for i := 0; i < 16; i++ {
 			c.Ops = append(c.Ops, chunk.Draw(t, "ops")...)
 		}
@@ -400,7 +407,7 @@ func c34Exec(c c34Case, x *pbt.Ctx) error {
 	return nil
 }
 
-const c34Rule = "operation lists (about 70 ops on average, at most 192: add ~70%%, delete ~11%%, deleteReplace ~14-18%%%s) over 3 buckets x 24 node ids at log-distances 256/255/253 (70/20/10%% of fresh nodes) from one of 4 local identities; operands are a fresh node of a bucket, a node used before (by index), or the local id itself (add/stuff only: the only ops whose callers can meet it); one Node object per id; deleteReplace only on nodes add() was called with before (caller precondition); the statement's invariants are checked after every op; non-trivial = some add hit a full bucket and a later deleteReplace promoted a replacement; distinct by the whole op list"
+const c34Rule = "operation lists (about 70 ops on average, at most 192: add ~70%%, delete ~11%%, deleteReplace ~14-18%%%s) over 3 buckets x 48 node ids (in a third of the cases preceded by 30-40 fresh adds to the hot bucket, which fills the bucket and its replacement list) at log-distances 256/255/253 (70/20/10%% of fresh nodes) from one of 4 local identities; operands are a fresh node of a bucket, a node used before (by index), or the local id itself (add/stuff only: the only ops whose callers can meet it); one Node object per id; deleteReplace only on nodes add() was called with before (caller precondition); the statement's invariants are checked after every op; non-trivial = some add hit a full bucket and a later deleteReplace promoted a replacement; distinct by the whole op list"
 
 func TestC34(t *testing.T) {
 	// the operations production code performs (table.stuff has no caller in the repository)
